@@ -5,7 +5,7 @@ COMMON_NOTE = ("Trusted: Lean 4.33.0 kernel; axioms propext, Classical.choice, Q
                "baseapp branching, ethermint's EVM: exercised on every operation, not verified. ")
 
 SUITES = {
-    "signers": dict(quick_ops=2500, thorough_ops=15000, driver="signers", accept_floor=20),
+    "signers": dict(quick_ops=5000, thorough_ops=15000, driver="signers", accept_floor=20),
 }
 
 PROPS = {
